@@ -168,6 +168,16 @@ def make_cfg(rng, i, base=None):
                 args = [("pos", ("S", [("T", rng.choice(["x", "y 1", ""]))]))] if rng.random() < 0.6 else []
                 extra.append(("CN", "t", inner, "t" + letter, args))
             page = ("S", page[1] + extra)
+        if rng.random() < 0.08:
+            # positional arguments that LOOK like name=value but whose would-be name contains a character no name can
+            # contain (& [ ]): the hooks must see them as positional values, untrimmed
+            n = rng.choice(NAMES)
+            txt = rng.choice(["R&D=yes", "&nbsp;= y", "a]b=c", "a[b= c ", "x&y=1"])
+            args = [("pos", ("S", [("T", txt)]))]
+            if rng.random() < 0.5:
+                args.insert(0, ("pos", ("S", [("T", "p")])))
+            page = ("S", page[1] + [("C", n, n, args)])
+            tags.add("arg:amp-or-bracket-before-equals")
         r = rng.random()
         if r < 0.10:
             items = page[1] + gen_invokes(rng, cfg, tags)
